@@ -44,6 +44,10 @@ THEOREMS = [
     "Lena.Bridge.Split.c05_project_agrees",
     "Lena.Bridge.Split.c05_fillRun_agrees",
     "Lena.Bridge.Split.c05_split_prefix",
+    "Lena.Bridge.Split.c05_split_agreesX",
+    "Lena.Bridge.Split.c05_splitFill_agrees",
+    "Lena.Bridge.Split.c05_splitFillAll_agrees",
+    "Lena.Bridge.Split.c05_splitFillRun_agrees",
     "Lena.Bridge.Split.c03_fc_branch_alone",
     "Lena.Bridge.Split.c05_split_is_schedule",
     "Lena.Bridge.Split.c03_fc_copyBuf_irrelevant",
@@ -55,6 +59,7 @@ THEOREMS = [
     # 3. C04 <-> C03
     "Lena.Bridge.Split.c04_run_erases",
     "Lena.Bridge.Split.c04_outputs_erase",
+    "Lena.Bridge.Split.c04_splitRun_erases",
     "Lena.Bridge.Split.c04_splitFill_erases",
     "Lena.Bridge.Split.c04_zipFill_erases",
     "Lena.Bridge.Split.c04_fillFlow_erases",
@@ -203,6 +208,16 @@ def run_fc(case):
     except Exception as e:
         return {"e": exc_name(e)}
     res = {"split": observe(lambda: sp.run(iter(list(flow)))), "fill": [], "alone": []}
+
+    def fill_split():
+        sp2 = lena.core.Split([tuple(build_fc(s) for s in b) for b in case["branches"]], copy_buf=case["copy_buf"])
+        for v in flow:
+            try:
+                sp2.fill(v)
+            except lena.core.LenaStopFill:
+                break
+        return sp2.compute()
+    res["sfill"] = observe(fill_split)
     for b in case["branches"]:
         def fill_alone(b=b):
             seq = lena.core.FillComputeSeq(*[build_fc(s) for s in b])
@@ -444,6 +459,10 @@ def model_requests(case):
     return [{k: v for k, v in case.items() if k != "bridge"}]
 
 
+def cs_nonempty(case):
+    return len(case["branches"]) > 0
+
+
 def _is_prefix(a, b):
     return len(a) <= len(b) and b[:len(a)] == a
 
@@ -470,6 +489,14 @@ def compare(case, res, replies):
                 return f"C03 on toSplit {t3} vs impl {res['split']}"
         elif not _is_prefix(t5, t3):
             return f"c05_split_prefix instance fails: C05 {t5} is not a prefix of C03 {t3}"
+        if m["c03x"] != m["c05"]:
+            return f"c05_split_agreesX instance fails: C03X {m['c03x']} vs C05 {m['c05']}"
+        if cs_nonempty(case):
+            sf = {"r": model_value(m["sfill"]["c05"]["r"]), "t": m["sfill"]["c05"]["t"]}
+            if sf != res["sfill"]:
+                return f"C05.splitFillRun {sf} vs Split driven by fill/compute {res['sfill']}"
+            if sf["t"] is None and model_value(m["sfill"]["c03"]) != res["sfill"]["r"]:
+                return f"c05_splitFillRun_agrees instance fails: C03 {m['sfill']['c03']} vs impl {res['sfill']}"
         for i, (f, r) in enumerate(zip(m["fill"], res["fill"])):
             f5 = {"r": model_value(f["c05"]["r"]), "t": f["c05"]["t"]}
             if f5 != r:
